@@ -74,6 +74,8 @@ def rand_file(rng):
         tr = MidiTrack()
         for _ in range(rng.choice((0, 1, 5, 20, 40))):
             d = rng.choice((0, 0, 1, 1, 10, 96, 480, 5000, 10 ** 6))
+            if rng.random() < 0.04:
+                d = 0x0FFFFFFF          # the longest delta a file can hold: a few of them and the song position passes 2**28 ticks
             r = rng.random()
             if r < 0.25:
                 tempo = rng.choice((0, 1, 250000, 500000, 16777215, rng.randrange(1, 2 ** 24)))
